@@ -1,7 +1,9 @@
 import H3.Drv.Util
 import H3.Model.ErrCell
 /-! Driver engine `cell` (C05).  Case line:
-    `cell <pce|acc|clo|idl> S1=<err>,.. S2=.. : <label> ..` with labels `D.poll D.pce D.det:<err> D.park S<k>`.
+    `cell <pce|acc|clo|idl> S1=<err>,.. S2=.. : <label> ..` with labels `D.poll D.pce D.det:<err> D.park D.shut S<k>`
+    (`D.shut`: a `shutdown()` call made while the driver is not inside a poll — `DOp.shut`,
+    `H3.ErrCell.checkErr`; the harness calls the real `shutdown()` / `check_connection_error`).
     Modes `clo` / `idl` are the client's driver (`poll_close` called directly / the `wait_idle()`
     future): there a `D.det:<quic error>` is the transport failing inside the `poll_accept_bi` at
     the end of the poll and `D.det:I259.0` the transport handing out a server-initiated stream —
@@ -59,6 +61,7 @@ def parseLabel (s : String) : Option TaskId :=
   if s == "D.poll" then some (.drv .poll)
   else if s == "D.pce" then some (.drv .pce)
   else if s == "D.park" then some (.drv .park)
+  else if s == "D.shut" then some (.drv .shut)
   else match dropPrefix s "D.det:" with
     | some r => (parseErr r).map fun e => .drv (.det e)
     | none =>
@@ -88,6 +91,12 @@ def joinOr (l : List String) : String := if l.isEmpty then "-" else ",".intercal
 /-- outcome token of one step, from the states before and after. -/
 def outcome (s : State) (l : TaskId) (s' : State) : String :=
   match l with
+  | .drv .shut =>
+    if s'.drets.length > s.drets.length then
+      match s'.drets with
+      | h :: _ => s!"D.E:{showC h}"
+      | [] => "D.?"
+    else if s.pc == .idle then "D.ok" else "D.skip"
   | .drv _ =>
     if s'.drets.length > s.drets.length then
       match s'.drets with
@@ -156,6 +165,56 @@ def modelLine (specs : List (List Err)) (sched : List TaskId) : String :=
 
 /-! ### the specification half -/
 
+/-- The driver's possible positions once the connection has its error.  `rep` = a driver call has
+    reported the error (absorbing: every later call reports it again); `idle` = not inside a poll, not
+    reported yet; `started` / `armed` = inside a poll, between calls; `midOld` = inside a
+    `poll_connection_error` call that began BEFORE the error was stored (it may or may not see it);
+    `midNew` = inside a call that began after the error was stored (it must report it). -/
+inductive W where
+  | rep | idle | started | armed | midOld | midNew
+deriving Repr, DecidableEq
+
+/-- What a driver label can do to one possible position.  Written from the property text: a call
+    of the driver that is made after the error exists reports it — `shutdown()` at once, a poll by
+    the end of its first complete `poll_connection_error` call (which half of the call looks at the
+    cell is not the specification's business: both outcomes of a half are possible). -/
+def wStep (op : DOp) : W → List W
+  | .rep => [.rep]
+  | .idle =>
+    match op with
+    | .poll => [.started]
+    | .shut => [.rep]
+    | _ => [.idle]
+  | .started =>
+    match op with
+    | .pce => [.midNew, .rep]
+    | .det _ => [.rep]
+    | .bidi _ => [.rep]
+    | _ => [.started]
+  | .armed =>
+    match op with
+    | .pce => [.midNew, .rep]
+    | .det _ => [.rep]
+    | .bidi _ => [.rep]
+    | .park => [.idle]
+    | _ => [.armed]
+  | .midOld =>
+    match op with
+    | .pce => [.armed, .rep]
+    | _ => [.midOld]
+  | .midNew =>
+    match op with
+    | .pce => [.rep]
+    | _ => [.midNew]
+
+def wOfPc : DPc → W
+  | .idle => .idle
+  | .started => .started
+  | .mid => .midOld
+  | .armed => .armed
+
+def wAll (op : DOp) (ws : List W) : List W := (ws.flatMap (wStep op)).eraseDups
+
 /-- What the schedule alone says, before any error exists: the driver's position (every
     `poll_connection_error` call returns `Pending` while nothing has been raised), and for each
     handle how many calls it has started / completed.  A *raise* is the start of a handle's
@@ -166,6 +225,10 @@ structure Scan where
   mids : List Bool
   done : List Nat
   winner : Option Err := none
+  /-- behind the winner: where the driver may be (`W`), given that the specification does not know
+      the order of the operations inside a `poll_connection_error` call -/
+  poss : List W := []
+
 
 def specBidi : Option QErr → Err
   | some q => .quic q
@@ -173,19 +236,20 @@ def specBidi : Option QErr → Err
 
 def scanStep (sc : Scan) : TaskId → Scan
   | .drv op =>
-    if sc.winner.isSome then sc else
+    if sc.winner.isSome then { sc with poss := wAll op sc.poss } else
     match op, sc.dpc with
     | .poll, .idle => { sc with dpc := .started }
     | .pce, .started => { sc with dpc := .mid }
     | .pce, .armed => { sc with dpc := .mid }
     | .pce, .mid => { sc with dpc := .armed }
     | .park, .armed => { sc with dpc := .idle }
-    | .det e, .started => { sc with winner := some e }
-    | .det e, .armed => { sc with winner := some e }
+    -- the driver detects the error itself: that call reports it
+    | .det e, .started => { sc with winner := some e, poss := [.rep] }
+    | .det e, .armed => { sc with winner := some e, poss := [.rep] }
     -- a client whose transport fails / hands it a server-initiated bidirectional stream
     -- (RFC 9114 §6.1: H3_STREAM_CREATION_ERROR = 0x0103) at the end of a poll
-    | .bidi r, .started => { sc with winner := some (specBidi r) }
-    | .bidi r, .armed => { sc with winner := some (specBidi r) }
+    | .bidi r, .started => { sc with winner := some (specBidi r), poss := [.rep] }
+    | .bidi r, .armed => { sc with winner := some (specBidi r), poss := [.rep] }
     | _, _ => sc
   | .str i =>
     match sc.mids[i]?, sc.todo[i]? with
@@ -193,7 +257,8 @@ def scanStep (sc : Scan) : TaskId → Scan
       { sc with mids := sc.mids.set i false, done := sc.done.set i (sc.done.getD i 0 + 1) }
     | some false, some (e :: rest) =>
       { sc with mids := sc.mids.set i true, todo := sc.todo.set i rest,
-                winner := match sc.winner with | some w => some w | none => some e }
+                winner := match sc.winner with | some w => some w | none => some e,
+                poss := if sc.winner.isSome then sc.poss else [wOfPc sc.dpc] }
     | _, _ => sc
 
 /-- The property's demand on `close`, from its text and the `quic` trait documentation (not
@@ -228,9 +293,31 @@ def specLine (specs : List (List Err)) (sched : List TaskId) : String :=
     let d := s!"cell={showErr w} drv=pend closes=- woken 1 parked 1 quiet * lost=0 dflip=0 {errsNoDrv} {tail}"
     -- parked, not notified yet, but a handle is still between its store and its wake
     let e := s!"cell={showErr w} drv=pend closes=- woken 0 parked 1 quiet 0 lost=0 dflip=0 {errsNoDrv} {tail}"
+    -- every driver call made behind the error has reported it (`shutdown()`, or a complete
+    -- `poll_connection_error` call of a poll): only the first alternative is left — the driver
+    -- has reported and, for an error detected locally, closed
+    if sc.poss == [.rep] then a else
     " || ".intercalate [a, b, c, d, e]
 
+/-- `cell dg <first|-> <transport error>`: the datagram handle of h3-datagram
+    (`DatagramSender::handle_send_datagram_error`).  Model = the code: it stores the transport's error
+    with `set_conn_error_and_wake`, drops what that call returns (the error that IS in the cell) and
+    answers `ConnectionError::Remote(<its own error>)` — not `convert_to_connection_error`: a timeout
+    comes out as `Remote(Timeout)`, and after an earlier error it names the transport's error instead of
+    the connection's (site D-05g).  Spec = the property: every handle reports the connection's single
+    error, the one the driver reports. -/
+def handleDg (first q : String) : String :=
+  match (if first == "-" then some none else (parseErr first).map some), parseErr q with
+  | some f, some (.quic qe) =>
+    let cell := f.getD (.quic qe)
+    let dg := showQ "R" qe
+    let drv := showC (convert cell)
+    let tag := if dg == drv then "" else " #D-05g"
+    s!"cell={showErr cell} dg={dg} drv={drv}{tag} ## cell={showErr cell} dg={drv} drv={drv}"
+  | _, _ => "bad-op"
+
 def handle : List String → String
+  | ["cell", "dg", first, q] => handleDg first q
   | "cell" :: mode :: rest =>
     if mode != "pce" && mode != "acc" && mode != "clo" && mode != "idl" then "bad-op" else
     let client := mode == "clo" || mode == "idl"
